@@ -94,6 +94,19 @@ func ttlProbe(sc Scenario, i int, st *Stack, d *Driver, ob StepObs) []Violation 
 			}
 			out = append(out, Violation{What: fmt.Sprintf("%s holds key %q until %d, the specification until %d (now %d), after step %d", recName, k, it.Deadline, sp[1], now, i),
 				Signature: sig + ":" + lastTTLCommands(sc, i, k), Replay: map[string]interface{}{"step": i, "key": k, "impl_deadline": it.Deadline, "spec_deadline": sp[1], "now": now}})
+		case ok && sok && chunked:
+			// every chunk entry of the key must carry the same expiry as the key itself
+			for ci := 0; ci < 64; ci++ {
+				ce, cok := record.Lookup(fmt.Sprintf("%s-%d", k, ci))
+				if !cok {
+					break
+				}
+				if ce.Deadline != sp[1] {
+					out = append(out, Violation{What: fmt.Sprintf("%s holds chunk %d of key %q until %d, the specification holds the key until %d (now %d), after step %d", recName, ci, k, ce.Deadline, sp[1], now, i),
+						Signature: "chunk-entry-deadline:" + lastTTLCommands(sc, i, k), Replay: map[string]interface{}{"step": i, "key": k, "chunk": ci, "impl_deadline": ce.Deadline, "spec_deadline": sp[1], "now": now}})
+					break
+				}
+			}
 		case ok != sok && !chunked:
 			out = append(out, Violation{What: fmt.Sprintf("%s serves key %q: %v, the specification: %v, after step %d", recName, k, ok, sok, i),
 				Signature: "record-tier-presence:" + s.Cmd.Kind, Replay: map[string]interface{}{"step": i, "key": k, "now": now}})
